@@ -655,6 +655,9 @@ def _to_c_expr(
                         f"return {chosen}; }}())"
                     )
                 return expr
+            if any(label == "String" or _is_list_type(label or "") for label in labels):
+                # the value would be one of the (string / list) operands
+                raise ValueError("and / or over strings or lists is not supported")
             op_token = "&&" if isinstance(n.op, ast.And) else "||"
             return "(" + f" {op_token} ".join(emit(v) for v in n.values) + ")"
 
@@ -662,6 +665,13 @@ def _to_c_expr(
             op_tokens = [_CMP.get(type(op_node)) for op_node in n.ops]
             if any(token is None for token in op_tokens):
                 raise ValueError("unsupported")
+            compared = [_infer_arg_type(operand) for operand in [n.left] + list(n.comparators)]
+            if any(_is_list_type(label or "") for label in compared):
+                raise ValueError("comparison of lists is not supported")
+            if "String" in compared and any(
+                label in {"int", "float", "bool"} for label in compared
+            ):
+                raise ValueError("comparison of a string with a number is not supported")
             shared = n.comparators[:-1]
             if any(
                 not isinstance(operand, (ast.Name, ast.Constant)) for operand in shared
@@ -682,10 +692,15 @@ def _to_c_expr(
                 return "(" + _lambda_capture(n) + "() -> bool { " + " ".join(steps) + " }())"
             parts = []
             left = emit(n.left)
+            if isinstance(n.left, ast.Constant) and isinstance(n.left.value, str):
+                # the Arduino String only defines comparisons with the String on the left
+                left = f"String({left})"
             for op_token, comparator in zip(op_tokens, n.comparators):
                 right = emit(comparator)
                 parts.append(f"{left} {op_token} {right}")
                 left = right
+                if isinstance(comparator, ast.Constant) and isinstance(comparator.value, str):
+                    left = f"String({right})"
             return "(" + " && ".join(parts) + ")"
 
         if isinstance(n, ast.IfExp):
@@ -951,6 +966,8 @@ def _to_c_expr(
                 pin_expr = _render_pin_argument(pin_node)
                 return f"analogRead({pin_expr})"
             if fname == "str" and len(n.args) == 1 and not n.keywords:
+                if _is_list_type(_infer_arg_type(n.args[0]) or ""):
+                    raise ValueError("str() of a list is not supported")
                 return f"String({emit(n.args[0])})"
             if fname == "str" and not n.args and not n.keywords:
                 return 'String("")'
@@ -2333,6 +2350,23 @@ def _handle_assignment_ast(
             return None
         rhs_src = line[value.col_offset : value.end_col_offset]
         rhs_c = _to_c_expr(rhs_src, vars_env, ctx)
+        operand_types = (
+            var_types.get(target.id),
+            _infer_expr_type(
+                value,
+                var_types,
+                functions_map,
+                function_param_types,
+                function_param_orders,
+                ctx,
+            ),
+        )
+        if any(_is_list_type(label or "") for label in operand_types):
+            raise ValueError("arithmetic on lists is not supported")
+        if "String" in operand_types and (
+            not isinstance(stmt.op, ast.Add) or operand_types[0] in {"int", "float", "bool"}
+        ):
+            raise ValueError("only + is supported on strings")
         bin_node = ast.BinOp(
             left=ast.Name(id=target.id, ctx=ast.Load()),
             op=stmt.op,
@@ -2402,6 +2436,16 @@ def _handle_assignment_ast(
                 raise ValueError("conflicting list element types")
         if _is_list_type(inferred_type):
             helpers.add("list")
+        if (
+            is_declared
+            and existing_type in {"int", "float", "bool"}
+            and inferred_type == "String"
+            and not _is_open_parameter(ctx, target.id, existing_type, inferred_type)
+        ):
+            # the C++ variable was declared as a number with its first assignment
+            raise ValueError(
+                f"cannot assign a string to {target.id!r}: it was first assigned a number"
+            )
         if (
             not is_declared
             or existing_type is None
